@@ -128,7 +128,8 @@ def runs_of_line(valid, periodic):
 
 # ------------------------------------------------------------------ helpers
 def mk_field(mesh, arr, valid, **kw):
-    return df.Field(mesh, nvdim=arr.shape[-1], value=arr, valid=valid.copy(), **kw)
+    return gen.via_history(
+        None, df.Field(mesh, nvdim=arr.shape[-1], value=arr, valid=valid.copy(), **kw))
 
 
 def centred(a, ax, dx, order):
